@@ -380,6 +380,11 @@ def check_schedules(case):
         for rot, quanta, label in plans:
             order = list(range(rot, len(calls))) + list(range(rot))
             fresh = [P.build_args(calls[i]) for i in order]
+            if case.get("shared"):
+                # the threads are handed the very same argument objects (one array, one angle object, one caller-made set read by
+                # two threads): a function that modifies an argument and restores it before returning is invisible to every
+                # sequential comparison, and visible here
+                fresh = [fresh[0]] * len(order)
             watched = [ex._watch(a) for _, a in fresh]
             P.BARRIER.log[:] = []
             try:
@@ -415,12 +420,27 @@ def check_schedules(case):
         P.BARRIER.log[:] = []
 
 
-def _schedule_cases(budget):
+def _schedule_cases(budget, shared_only=False):
     fam = P.call_strategy(families=True).map(lambda cs: list(cs)[:3])
     one = P.call_strategy()
     pair = st.tuples(one, one).map(list)
     twice = one.map(lambda c: [c, copy.deepcopy(c)])
-    return st.one_of(fam, fam, pair, twice).filter(lambda cs: len(cs) >= 2).map(lambda cs: {"calls": cs, "budget": budget})
+    plain = st.one_of(fam, fam, pair, twice).filter(lambda cs: len(cs) >= 2).map(lambda cs: {"calls": cs, "budget": budget})
+    if not shared_only:
+        return plain
+    return one.filter(_has_caller_object).map(lambda c: {"calls": [c, copy.deepcopy(c)], "budget": budget, "shared": True})
+
+
+def _has_caller_object(call):
+    """Does the call hand the library something mutable that the caller made (an array, a list, an angle / coordinate / grid
+    object, a parameter set or ellipsoid of its own)?"""
+    a = call["a"]
+    if call["fn"] in ("angle_op", "angle_rounded", "coord_geo", "ntv2_obj", "angle_fn_v", "precise_inst_ht", "vcv_cart2local", "vcv_local2cart",
+                      "error_ellipse", "relative_error"):
+        return True
+    if a.get("vcv") is not None or a.get("kind", "float") != "float":
+        return True
+    return isinstance(a.get("ell"), dict) or (isinstance(a.get("trans"), dict) and "p" in a["trans"])
 
 
 def _classes_sched(case):
@@ -430,6 +450,8 @@ def _classes_sched(case):
     out.append("same entry point" if len(names) == 1 else "different entry points")
     if all(repr(jsonable(c)) == repr(jsonable(cs[0])) for c in cs):
         out.append("identical calls")
+    if case.get("shared"):
+        out.append("argument objects shared between the threads")
     out += ["fn:" + n for n in names]
     return out
 
@@ -452,6 +474,11 @@ SUBCHECKS += [
                   "loses the baton only where the plan says): alternation after every 1, 2, 3, 7 library lines, and every call pre-empted "
                   "once (and twice) at a stratified sample of its library lines - about 60 schedules per case; each result bit-identical "
                   "to a process that made no other call; constants, write barrier and arguments as in the other sub-checks"),
+    SubCheck("owned_schedules_shared_arguments", check_schedules, strategy=_schedule_cases(24, shared_only=True), nontrivial=lambda c: True,
+             classes=_classes_sched, quick=160, thorough=4000, shards_quick=8, shards_thorough=48, setup=_setup,
+             rule="one call that is handed something the caller made (array, list, angle / coordinate / grid object, own parameter set or "
+                  "ellipsoid) runs in two threads on the VERY SAME argument objects under about 24 owned schedules: a function that modifies "
+                  "an argument and restores it before returning passes every sequential comparison and fails here"),
     SubCheck("owned_schedules_complete", check_schedules, strategy=_schedule_cases(1500), nontrivial=lambda c: True, classes=_classes_sched,
              quick=24, thorough=960, shards_quick=6, shards_thorough=48, setup=_setup,
              rule="the same with up to 1500 schedules per case: EVERY single pre-emption point of every call whose solo run takes fewer "
